@@ -1,19 +1,24 @@
 //! C05 (BFS half) — `BfsPred` on the real code, every representation.
 //!
-//!   bfs_pred_iter          <desc> <sources>        =>  [[pred v] …]       (pred = none | id)
-//!   bfs_pred_predecessors  <desc> <sources>        =>  [pred …]
-//!   bfs_pred_shortest_path <desc> <sources> <tgt>  =>  none | [v …]
-//!   bfs_pred_cycles        <desc> <sources>        =>  [[v …] …]
+//!   bfs_pred_iter          <desc> <sources> [shape]        =>  [[pred v] …]       (pred = none | id)
+//!   bfs_pred_predecessors  <desc> <sources> [shape]        =>  [pred …]
+//!   bfs_pred_shortest_path <desc> <sources> <tgt> [shape]  =>  none | [v …]
+//!   bfs_pred_cycles        <desc> <sources> [shape]        =>  [[v …] …]
+//!   bfs_pred_iter_repoll   <desc> <sources> <k> <extra> [shape]
+//!                              =>  [first ≤k items] [rest] [rest of a clone] [extra polls after None]
 //!
+//! `[shape]` = kind of iterator the sources are handed over as, see `c04.rs` (default `slice`).
 //! `<tgt>` ∈ `[eq t] [in [..]] never always`.  The `DijkstraPred` half of C05 lives in `c03.rs`.
 #![allow(clippy::all)]
 
 use crate::graphs::{self, Desc};
-use crate::ops::c04::{for_all_small, gen_case, small_desc};
+use crate::ops::c04::{
+    for_all_small, gen_case, gen_shape, large_desc, repoll, shape_of, small_desc, SHAPES, STRESS_DENSE, STRESS_ORDERS,
+};
 use crate::rng::Rng;
 use crate::value::V;
 use crate::with_digraph;
-use graaf::BfsPred;
+use graaf::{BfsPred, Order, OutNeighbors};
 
 enum Tgt {
     Eq(usize),
@@ -35,48 +40,58 @@ fn parse_tgt(v: &V) -> Option<Tgt> {
     }
 }
 
-pub fn eval(op: &str, args: &[V]) -> Option<Vec<V>> {
-    match op {
-        "bfs_pred_iter" => {
-            let [desc, srcs] = args else { return None };
-            let desc = Desc::parse(desc)?;
-            let srcs = srcs.as_usizes()?;
-            let out: Vec<(Option<usize>, usize)> =
-                with_digraph!(&desc, d => BfsPred::new(&d, srcs.iter().copied()).collect());
-            Some(vec![V::L(out.into_iter().map(|(p, v)| V::L(vec![V::opt_u(p), V::u(v)])).collect())])
+enum Job {
+    Iter,
+    Predecessors,
+    ShortestPath(Tgt),
+    Cycles,
+    Repoll(usize, usize),
+}
+
+fn run_job<D, T>(d: &D, it: T, job: &Job) -> Vec<V>
+where
+    D: Order + OutNeighbors + Clone,
+    T: Iterator<Item = usize> + Clone,
+{
+    let show = |&(p, v): &(Option<usize>, usize)| V::L(vec![V::opt_u(p), V::u(v)]);
+    match job {
+        Job::Iter => vec![V::L(BfsPred::new(d, it).map(|x| show(&x)).collect())],
+        Job::Predecessors => {
+            let tree = BfsPred::new(d, it).predecessors();
+            vec![V::L(tree.pred.iter().map(|e| V::opt_u(*e)).collect())]
         }
-        "bfs_pred_predecessors" => {
-            let [desc, srcs] = args else { return None };
-            let desc = Desc::parse(desc)?;
-            let srcs = srcs.as_usizes()?;
-            let tree = with_digraph!(&desc, d => BfsPred::new(&d, srcs.iter().copied()).predecessors());
-            Some(vec![V::L(tree.pred.iter().map(|e| V::opt_u(*e)).collect())])
+        Job::ShortestPath(tgt) => {
+            let mut b = BfsPred::new(d, it);
+            let r = match tgt {
+                Tgt::Eq(t) => b.shortest_path(|v| v == *t),
+                Tgt::In(ts) => b.shortest_path(|v| ts.contains(&v)),
+                Tgt::Never => b.shortest_path(|_| false),
+                Tgt::Always => b.shortest_path(|_| true),
+            };
+            vec![r.map_or_else(V::none, V::us)]
         }
-        "bfs_pred_shortest_path" => {
-            let [desc, srcs, tgt] = args else { return None };
-            let desc = Desc::parse(desc)?;
-            let srcs = srcs.as_usizes()?;
-            let tgt = parse_tgt(tgt)?;
-            let r: Option<Vec<usize>> = with_digraph!(&desc, d => {
-                let mut it = BfsPred::new(&d, srcs.iter().copied());
-                match &tgt {
-                    Tgt::Eq(t) => it.shortest_path(|v| v == *t),
-                    Tgt::In(ts) => it.shortest_path(|v| ts.contains(&v)),
-                    Tgt::Never => it.shortest_path(|_| false),
-                    Tgt::Always => it.shortest_path(|_| true),
-                }
-            });
-            Some(vec![r.map_or_else(V::none, V::us)])
-        }
-        "bfs_pred_cycles" => {
-            let [desc, srcs] = args else { return None };
-            let desc = Desc::parse(desc)?;
-            let srcs = srcs.as_usizes()?;
-            let cs: Vec<Vec<usize>> = with_digraph!(&desc, d => BfsPred::new(&d, srcs.iter().copied()).cycles());
-            Some(vec![V::L(cs.into_iter().map(V::us).collect())])
-        }
-        _ => None,
+        Job::Cycles => vec![V::L(BfsPred::new(d, it).cycles().into_iter().map(V::us).collect())],
+        Job::Repoll(k, extra) => repoll(BfsPred::new(d, it), *k, *extra, &show),
     }
+}
+
+pub fn eval(op: &str, args: &[V]) -> Option<Vec<V>> {
+    let (job, rest) = match op {
+        "bfs_pred_iter" => (Job::Iter, args.get(2..)?),
+        "bfs_pred_predecessors" => (Job::Predecessors, args.get(2..)?),
+        "bfs_pred_cycles" => (Job::Cycles, args.get(2..)?),
+        "bfs_pred_shortest_path" => (Job::ShortestPath(parse_tgt(args.get(2)?)?), args.get(3..)?),
+        "bfs_pred_iter_repoll" => (Job::Repoll(args.get(2)?.as_usize()?, args.get(3)?.as_usize()?), args.get(4..)?),
+        _ => return None,
+    };
+    if rest.len() > 1 {
+        return None;
+    }
+    let shape = shape_of(rest.first())?;
+    let desc = Desc::parse(&args[0])?;
+    let srcs = args[1].as_usizes()?;
+    let n = desc.order();
+    Some(with_digraph!(&desc, d => crate::with_sources!(shape, &srcs, n, it => run_job(&d, it, &job))))
 }
 
 /// Target predicates: a single vertex (possibly absent: id = order), small and large sets
@@ -102,7 +117,52 @@ fn gen_tgt(rng: &mut Rng, n: usize, srcs: &[usize]) -> V {
     }
 }
 
+/// Out-of-distribution stream (only for `gharness gen C05 <seed> stress`), most promising first.
+fn gen_stress(rng: &mut Rng, emit: &mut dyn FnMut(String)) {
+    for i in 0..400 {
+        let (desc, mut srcs) = gen_case(rng);
+        let n = desc.order();
+        let shape = SHAPES[i % SHAPES.len()];
+        if shape == "range_filter" {
+            srcs.sort_unstable();
+        }
+        let d = desc.to_v();
+        let s = V::us(srcs.iter().copied());
+        emit(format!("bfs_pred_iter {d} {s} {shape}"));
+        emit(format!("bfs_pred_predecessors {d} {s} {shape}"));
+        emit(format!("bfs_pred_cycles {d} {s} {shape}"));
+        emit(format!("bfs_pred_shortest_path {d} {s} {} {shape}", gen_tgt(rng, n, &srcs)));
+        emit(format!("bfs_pred_iter_repoll {d} {s} {} {} {shape}", rng.below(n + 2), 1 + rng.below(3)));
+    }
+    for round in 0..2 {
+        for (j, &n) in STRESS_ORDERS.iter().enumerate() {
+            let repr = graphs::ALL_REPRS[(j + round * 5) % 6];
+            let (desc, mut srcs) = large_desc(rng, repr, n, None);
+            let shape = gen_shape(rng, &mut srcs);
+            let d = desc.to_v();
+            let s = V::us(srcs.iter().copied());
+            emit(format!("bfs_pred_iter {d} {s}{shape}"));
+            emit(format!("bfs_pred_predecessors {d} {s}{shape}"));
+            emit(format!("bfs_pred_cycles {d} {s}{shape}"));
+            emit(format!("bfs_pred_shortest_path {d} {s} {}{shape}", gen_tgt(rng, n, &srcs)));
+            emit(format!("bfs_pred_shortest_path {d} {s} [eq {}]{shape}", rng.below(n)));
+            emit(format!("bfs_pred_iter_repoll {d} {s} {} 2{shape}", rng.below(n)));
+        }
+    }
+    for &(n, dens, repr) in &STRESS_DENSE {
+        let (desc, srcs) = large_desc(rng, repr, n, Some(dens));
+        let d = desc.to_v();
+        let s = V::us(srcs.iter().copied());
+        emit(format!("bfs_pred_predecessors {d} {s}"));
+        emit(format!("bfs_pred_shortest_path {d} {s} [in [{} {} {}]] filter", rng.below(n), rng.below(n), rng.below(n)));
+    }
+}
+
 pub fn gen(rng: &mut Rng, thorough: bool, emit: &mut dyn FnMut(String)) {
+    if crate::stress() {
+        gen_stress(rng, emit);
+        return;
+    }
     // (1) exhaustive small scope (<= 3 quick, <= 4 thorough): every digraph x every source subset;
     //     ops / representations rotate; shortest_path with every single-vertex target and `always`
     //     on <= 3 vertices.
@@ -111,46 +171,68 @@ pub fn gen(rng: &mut Rng, thorough: bool, emit: &mut dyn FnMut(String)) {
         for_all_small(n, &mut |idx, arcs, srcs| {
             let repr = graphs::ALL_REPRS[idx % 6];
             let d = small_desc(repr, n, arcs).to_v();
+            // ascending subsets: every shape (also `range_filter`) keeps this order
             let s = V::us(srcs.iter().copied());
+            let sh = SHAPES[(idx / 3) % SHAPES.len()];
             let all = thorough && n <= 3;
             let k = (idx / 6) % 4;
             if all || k == 0 {
-                emit(format!("bfs_pred_iter {d} {s}"));
+                emit(format!("bfs_pred_iter {d} {s} {sh}"));
             }
             if all || k == 1 {
-                emit(format!("bfs_pred_predecessors {d} {s}"));
+                emit(format!("bfs_pred_predecessors {d} {s} {sh}"));
             }
             if all || k == 2 {
-                emit(format!("bfs_pred_cycles {d} {s}"));
+                emit(format!("bfs_pred_cycles {d} {s} {sh}"));
             }
             if all {
                 for t in 0..n {
-                    emit(format!("bfs_pred_shortest_path {d} {s} [eq {t}]"));
+                    emit(format!("bfs_pred_shortest_path {d} {s} [eq {t}] {sh}"));
                 }
-                emit(format!("bfs_pred_shortest_path {d} {s} always"));
-                emit(format!("bfs_pred_shortest_path {d} {s} [in [{} {}]]", n - 1, n / 2));
+                emit(format!("bfs_pred_shortest_path {d} {s} always {sh}"));
+                emit(format!("bfs_pred_shortest_path {d} {s} [in [{} {}]] {sh}", n - 1, n / 2));
             } else if k == 3 {
                 let t = (idx / 24) % (n + 1);
                 if t == n {
-                    emit(format!("bfs_pred_shortest_path {d} {s} [in [0 {}]]", n - 1));
+                    emit(format!("bfs_pred_shortest_path {d} {s} [in [0 {}]] {sh}", n - 1));
                 } else {
-                    emit(format!("bfs_pred_shortest_path {d} {s} [eq {t}]"));
+                    emit(format!("bfs_pred_shortest_path {d} {s} [eq {t}] {sh}"));
                 }
+            }
+            if idx % 5 == 0 {
+                emit(format!("bfs_pred_iter_repoll {d} {s} {} 2 {sh}", idx % (n + 2)));
             }
         });
     }
     // (2) random cases, orders 1..130, all representations
     let n_random = if thorough { 12_000 } else { 600 };
     for _ in 0..n_random {
-        let (desc, srcs) = gen_case(rng);
+        let (desc, mut srcs) = gen_case(rng);
+        let sh = gen_shape(rng, &mut srcs);
         let n = desc.order();
         let d = desc.to_v();
         let s = V::us(srcs.iter().copied());
-        emit(format!("bfs_pred_iter {d} {s}"));
-        emit(format!("bfs_pred_predecessors {d} {s}"));
-        emit(format!("bfs_pred_cycles {d} {s}"));
+        emit(format!("bfs_pred_iter {d} {s}{sh}"));
+        emit(format!("bfs_pred_predecessors {d} {s}{sh}"));
+        emit(format!("bfs_pred_cycles {d} {s}{sh}"));
         for _ in 0..4 {
-            emit(format!("bfs_pred_shortest_path {d} {s} {}", gen_tgt(rng, n, &srcs)));
+            emit(format!("bfs_pred_shortest_path {d} {s} {}{sh}", gen_tgt(rng, n, &srcs)));
+        }
+        if rng.chance(1, 2) {
+            emit(format!("bfs_pred_iter_repoll {d} {s} {} {}{sh}", rng.below(n + 2), 1 + rng.below(3)));
+        }
+    }
+    // (3) thorough: a sample of the large orders of the stress stream
+    if thorough {
+        for (j, &n) in STRESS_ORDERS.iter().enumerate() {
+            let repr = graphs::ALL_REPRS[j % 6];
+            let (desc, mut srcs) = large_desc(rng, repr, n, None);
+            let sh = gen_shape(rng, &mut srcs);
+            let d = desc.to_v();
+            let s = V::us(srcs.iter().copied());
+            emit(format!("bfs_pred_iter {d} {s}{sh}"));
+            emit(format!("bfs_pred_predecessors {d} {s}{sh}"));
+            emit(format!("bfs_pred_shortest_path {d} {s} {}{sh}", gen_tgt(rng, n, &srcs)));
         }
     }
 }
